@@ -564,6 +564,17 @@ inductive PwLimitEffect
   | fail (status : Nat)
 deriving DecidableEq, Repr
 
+/-! ### cmd/keymasterd `getValidSSHPublicKey` -/
+
+/-- externals: the regular expression's verdict on the submitted line (the literal is pinned by the translation: a
+change of it makes the target untranslatable; its alternation is also a regenerated fact of C19), `ssh.ParseAuthorizedKey`,
+the `ssh.CryptoPublicKey` assertion, `certgen.ValidatePublicKeyStrength` (translated separately: `c10_go_is_spec`) -/
+structure SshKeyExt where
+  lineMatches : Str → Bool × Option Err
+  parse : Str → Option Nat × Str × List Str × List Nat × Option Err
+  asCrypto : Option Nat → Nat × Bool
+  strong : Nat → Bool × Option Err
+
 /-! ### cmd/keymasterd `consumeLoginChallenge` -/
 
 /-- `localUserData`: the pending challenge of a user; the two challenge pointers are compared by identity (numbers
